@@ -236,6 +236,13 @@ def catalog():
     return out
 
 
+# nested programs that are deterministic instances of the recorded known findings (run once, not swept: every placement
+# would hang until the virtual time limit)
+KNOWN_SHAPED = set(
+    ["callback-internal/throttle-block-under-%s-nested-while-a-submit-is-parked" % t for t in ("map", "cos", "retry", "timeout", "poll")] +
+    ["callable/throttle-block-nested-from-the-only-pool-worker", "callback-internal/throttle-block-over-poll-nested-from-the-poll-thread"])
+
+
 def nested_cases():
     """Nested submission: user code inside the stack submits to the stack and returns."""
     out = []
@@ -304,6 +311,15 @@ def nested_cases():
                          ["result", "f1", 5], ["result", "n0", 5]],
                         [["sleep", 0.5], ["submit", "ex", "f2", {"script": [["tag"]]}], ["result", "f2", 5]]],
             "final": [], "settle": 2}))
+    # (b6) a poll invocation raises: the futures it was shown fail on the poll thread and their callbacks submit again, while a
+    #      client is inside submit() with a delegate future that is already done (it registers for polling inline)
+    out.append(("callback-internal/poll-raises-while-a-submit-registers", {
+        "setup": [["build", "ex", {"base": {"kind": "sync"}, "layers": [{"kind": "poll", "interval": 0.5, "per_sub": {"f0.fn": {"after": None}},
+                                                                         "calls": [{}, {"at": 0.4, "raise": "E2"}]}]}]],
+        "threads": [[["submit", "ex", "f0", {"script": [["tag"]]}], ["add_cb", "f0", "cb0", ["op", ["submit", "ex", "n0", inner]]], ["sleep", 0.5],
+                     ["result", "n0", 5]],
+                    [["sleep", 0.5], ["submit", "ex", "f1", {"script": [["tag"]]}], ["result", "f1", 5]]],
+        "final": [["shutdown", "ex", True]], "settle": 2}))
     # (b5) known findings K2N / K3 as deterministic programs (excluded by signature, counted in the evidence)
     out.append(("callable/throttle-block-nested-from-the-only-pool-worker", {
         "setup": [["build", "ex", {"base": {"kind": "pool", "workers": 1}, "layers": [{"kind": "throttle", "count": 1, "block": True}]}]],
@@ -319,9 +335,10 @@ def nested_cases():
                         ("retry+retry", [{"kind": "retry", "policy": {"type": "exc", "max_attempts": 2, "sleep": 0.25}}])):
         out.append(("callable/sync+%s-nested-while-another-submit-is-in-progress" % tname, {
             "setup": [["build", "ex", {"base": {"kind": "sync"}, "layers": [{"kind": "retry", "policy": {"type": "exc", "max_attempts": 2, "sleep": 0.25}}] + tops}]],
-            "threads": [[["submit", "ex", "f0", {"script": [["gate", "g", ["submit", "ex", "n0", inner, ["tag"]]]]}], ["sleep", 0.5], ["open", "g"],
-                         ["result", "f0", 5], ["result", "n0", 5]],
-                        [["sleep", 0.25], ["submit", "ex", "f2", {"script": [["tag"]]}], ["result", "f2", 5]]],
+            # (the gate is opened by a third thread: with an inline base a callable must not wait for its own submitter)
+            "threads": [[["submit", "ex", "f0", {"script": [["gate", "g", ["submit", "ex", "n0", inner, ["tag"]]]]}], ["result", "f0", 5], ["result", "n0", 5]],
+                        [["sleep", 0.25], ["submit", "ex", "f2", {"script": [["tag"]]}], ["result", "f2", 5]],
+                        [["sleep", 0.5], ["open", "g"]]],
             "final": [], "settle": 2}))
     out.append(("callable/throttle-block-nested-on-handover-thread", {
         "setup": [["build", "ex", {"base": {"kind": "sync"}, "layers": [{"kind": "throttle", "count": 1, "block": True}]}]],
@@ -375,6 +392,10 @@ def shards(tier, seed):
     for i in range(0, len(cat), per):
         specs.append({"mode": "sweep", "entries": cat[i:i + per], "double": tier == "thorough", "seed": seed})
     specs.append({"mode": "nested"})
+    # nested programs in which a second client thread acts concurrently: every single pre-emption placement as well
+    conc = [name for name, prog in nested_cases() if len(prog["threads"]) >= 2 and name not in KNOWN_SHAPED]
+    for i in range(0, len(conc), 3):
+        specs.append({"mode": "nested-sweep", "entries": conc[i:i + 3], "double": False})
     n = 350 if tier == "quick" else 5000
     for i in range(16):
         specs.append({"mode": "random", "seed": seed * 1000 + i, "n": n})
@@ -387,6 +408,10 @@ def run_shard(spec, ctx):
         cat = catalog()
         for name in spec["entries"]:
             progs.sweep(ctx, cat[name], name, evaluate, account, double=spec.get("double"), seed=spec.get("seed", 1))
+    elif spec["mode"] == "nested-sweep":
+        cases = dict(nested_cases())
+        for name in spec["entries"]:
+            progs.sweep(ctx, cases[name], "nested/" + name, evaluate, account, double=spec.get("double"), extra={"nested": name})
     elif spec["mode"] == "nested":
         cases = nested_cases()
         for name, prog in cases:
@@ -436,6 +461,10 @@ def case_strategy():
     @st.composite
     def cases(draw):
         stack = draw(gen.stacks(bases=("sync", "pool", "manual"), max_depth=4, block=True, long_timeouts=draw(st.booleans())))
+        for l in stack["layers"]:
+            # some poll layers fail: one poll invocation raises (all futures it was shown fail, their callbacks run)
+            if l["kind"] == "poll" and draw(st.integers(0, 2)) == 0:
+                l["calls"] = [{}] * draw(st.integers(0, 2)) + [{"raise": "E2"}, {}]
         manual = stack["base"]["kind"] == "manual"
         if manual:
             for l in stack["layers"]:
